@@ -433,7 +433,11 @@ impl<'a, T> SomeTable<'a> for ExtendedStateTable<'a, T> {
     }
 }
 
-pub type ExtendedStateTableU16<'a> = ExtendedStateTable<'a, u16>;
+/// Extended state table with a single 16-bit value per entry.
+///
+/// The payload is read in place so it must be a type with an alignment of
+/// one that stores its value in big-endian byte order.
+pub type ExtendedStateTableU16<'a> = ExtendedStateTable<'a, BigEndian<u16>>;
 
 #[cfg(test)]
 mod tests {
